@@ -1,6 +1,8 @@
 """Table of checks: property id -> parts (test functions), volumes per tier, evidence texts."""
 
 KV = "./internal/kvstore"
+ROOT = "."
+DMAP = "./internal/dmap"
 
 CHECKS = {
     "C11": {
@@ -25,6 +27,23 @@ CHECKS = {
              "timeout_quick": 300, "timeout_thorough": 1500},
             {"name": "exhaustive", "pkg": KV, "test": "TestVerifC11Exhaustive", "kind": "plain",
              "shards_quick": 8, "shards_thorough": 16, "timeout_quick": 300, "timeout_thorough": 1800},
+        ],
+    },
+    "C15": {
+        "level": "exploration",
+        "technique": "differential + model-based property testing over entry paths (rapid)",
+        "level_text": ("A drawn operation with a drawn option combination and prior key state is executed once per entry path "
+                       "(embedded on owner, embedded on non-owner, cluster client, raw RESP to owner, raw RESP to non-owner, pipeline) on identically prepared fresh keys of a real in-process cluster; "
+                       "every path must return the result the sequential model predicts and leave the same stored entry (value, presence, ttl within the measured window). "
+                       "Exploration: the option x state x path matrix is small and is covered many times; other cluster shapes are sampled."),
+        "level_note": "trusted: the sequential key model in the harness, rapid; the stored entry is read back through the owner's embedded client",
+        "rule": ("case = (cluster shape, operation, option combination, prior state); executed through all six paths. Non-trivial: a combined option (condition + expiry), "
+                 "a multi-key delete of >= 2 keys, or any other operation (every case includes the forwarded paths P2/P5); distinct = distinct case hash"),
+        "assumptions": ["wall-clock ttl windows are derived from measured invocation/response instants with a 2 ms guard"],
+        "parts": [
+            {"name": "paths", "pkg": ROOT, "test": "TestVerifC15", "kind": "rapid",
+             "checks_quick": 120, "checks_thorough": 2500, "shards_quick": 8, "shards_thorough": 16,
+             "timeout_quick": 300, "timeout_thorough": 1500},
         ],
     },
 }
